@@ -235,6 +235,7 @@ WORKLOADS = [
     Workload("adc_errors", w_adc_errors, 5, 50),
     Workload("shortest", w_shortest, 8000, 400000),
     Workload("known_patterns", w_known_patterns, 8, 8),
+    Workload("repo_tests", lambda ctx, rng, i: core.run_repo_tests(ctx), 1, 1, budget=1800, tiers=("thorough",)),
 ]
 
 
